@@ -189,6 +189,10 @@ pub fn run_plan(b: u64, plan: &Value, seed: u64, out: &mut Out) -> (u64, bool) {
         let i = *counter2.borrow();
         *counter2.borrow_mut() += 1;
         // two late replies in a row: the first one (dropped, as it should be) still leaves its mark on the round-trip estimate
+        // a slow link to the storing peers: the write is answered (acknowledged) 560 / 800 ms after it was sent
+        if q == "put" && (store == "slow560" || store == "slow800") && !(fkind != "none" && (i == fidx || (fkind == "late2" && i == fidx + 1))) {
+            return Reply::One(base, if store == "slow560" { 560 } else { 800 });
+        }
         if fkind == "late2" && (i == fidx || i == fidx + 1) {
             return Reply::One(base, if i == fidx { 620 } else { 1250 });
         }
@@ -548,7 +552,7 @@ pub fn run(args: &Args) -> i32 {
         let inflight = plan["store"] == "drop_p1" && plan["long"].as_u64().unwrap_or(0) == 0 && plan["calls"].as_array().map(|c| c.len() >= 2).unwrap_or(false)
             && plan["gaps"].as_array().map(|g| g.iter().any(|x| x.as_u64() == Some(400))).unwrap_or(false)
             && plan["hold"]["a"] == 0 && plan["hold"]["b"] == false && !has_silent;
-        let join = plan["join"].as_bool().unwrap_or(false) || plan["abandon"].as_array().map(|a| !a.is_empty()).unwrap_or(false);
+        let join = plan["join"].as_bool().unwrap_or(false) || plan["abandon"].as_array().map(|a| !a.is_empty()).unwrap_or(false) || plan["slow"].as_bool().unwrap_or(false);
         if class_only == "join" && !join {
             b += 1;
             continue;
